@@ -815,10 +815,15 @@ def check_parity(F, rep, rule, tyname, anchor):
         if "from_residual" in (mir.callee(t) or "") and t[3] == [0]: exits.append(bi)
     for bi in exits:
         gs = mir.guards_of(f, bi)
-        dep = False; only_format = bool(gs)
+        dep = False; only_format = bool(gs); under_ok = False
         for desc, pol, d in gs:
             if desc[0] == "discr":
-                if from_parser(["cp", desc[1]]): dep = True
+                if from_parser(["cp", desc[1]]):
+                    # on the Ok arm of the parser's own Result the parser has ACCEPTED: an Err exit there is check's own verdict
+                    if isinstance(pol, tuple) and ((str(desc[2]).startswith("std::result::Result<") and ((pol[0] == "in" and set(pol[1]) == {"Ok"}) or (pol[0] == "not" and set(pol[1]) == {"Err"})))
+                                                   or (str(desc[2]).startswith("std::ops::ControlFlow<") and ((pol[0] == "in" and set(pol[1]) == {"Continue"}) or (pol[0] == "not" and set(pol[1]) == {"Break"})))):
+                        under_ok = True
+                    else: dep = True
                 elif not any("format" in o.path_str() for o in mir.trace_place(f, desc[1])): only_format = False
             elif desc[0] == "call":
                 cc = desc[1] or ""
@@ -837,7 +842,9 @@ def check_parity(F, rep, rule, tyname, anchor):
                 else: only_format = False
             else: only_format = False
         site = "%s bb%d line %s" % (f.where(), bi, f.blocks[bi]["line"])
-        if dep: rep.ok(rule, "Err exit decided by a parser result", sample=site, nontrivial_key="err%d" % bi)
+        if under_ok and not dep:
+            rep.bad(rule, "check-rejects-accepted:%s" % tyname, "run_check_command returns an error on a path where the format parser has accepted the version (guards: %s): `zerv check --format` and the parser disagree (e.g. on v1.2.3, whose printed form differs from the input)" % [str(g[0][:2])[:60] for g in gs], site)
+        elif dep: rep.ok(rule, "Err exit decided by a parser result", sample=site, nontrivial_key="err%d" % bi)
         elif only_format: rep.ok(rule, "Err exit of the format dispatch (unknown format)", sample=site, nontrivial_key="fmt%d" % bi)
         else: rep.bad(rule, "check-own-verdict:%s" % tyname, "run_check_command rejects on a condition that does not come from the format parser (guards: %s): check and the parser can disagree" % [str(g[0][:2])[:60] for g in gs], site)
     # the 'normalized' note is decided by exact equality of the input with the printed form
